@@ -18,6 +18,7 @@ def P(qr, qw, tr, tw, **kw):
 PLAN = {
     "C01": P(6000, 75, 200000, 900),
     "C02": P(5000, 75, 150000, 900),
+    "C19": P(2500, 90, 60000, 900),
     "C13": P(800, 110, 20000, 1500, chunk=60, watchdog_s=120),
     "C14": P(800, 110, 20000, 1500, chunk=60, watchdog_s=120),
     "C12": P(1500, 100, 40000, 1200, chunk=150),
@@ -32,6 +33,11 @@ PLAN = {
 }
 
 LEVELS = {
+    "C19": {"level": "exploration", "rule": RULE,
+            "text": "1..4 appender clients add entries (empty, multi-line, YAML-looking, >1 KiB payloads) under sampled interleavings of their Touch / GetAttr / Put triplets, with call latencies up to 0.7 s and pauses so that appends fall into different seconds; oracle: tokens are unique KSUIDs, an append that returned in an earlier second than another was invoked has the smaller token, the stored entry holds the payload unchanged, ListTokens from issued and synthetic tokens with max 1..1000 returns exactly the look-back window in token order. Reading entries back through ListEntries is a recorded finding (reproduced by a directed scenario)",
+            "note": "simstore's KeysPrefix honours a start key (the contract pkg/wal is written against); the log is driven as a library (nothing in datamon calls it)",
+            "components": {"real": ["pkg/wal", "pkg/model wal"], "stub": STUB},
+            "assumptions": ["token generator and log live in two buckets, as in the package's own tests"]},
     "C13": {"level": "exploration", "rule": RULE,
             "text": "histories of uploads / bundle deletes / squashes over 1-3 repositories (prefix-related names) in one or two contexts sharing one blob bucket with heavy dedup; hours of simulated time; reverse-index build with the real pebble KV, chunk sizes 1..500000, the 5-minute uploader driven by stalled calls, then delete-unused, with late uploads started during the build, between both commands and during the deletion. Three fault configurations: transient errors / lost acknowledgements on index-chunk writes, list pages, reads, attribute reads and deletes; a crash of the build at a chosen write followed by a --resume run; fault-free. Oracle: whenever both commands report success, every bundle committed before the index started and every bundle uploaded after it downloads byte-identical",
             "note": "bundles committed while the index is being built are outside the statement and are not generated; late uploads never reuse content orphaned at index time in the open search (recorded finding, reproduced by a directed scenario); weak-replay: pebble and errgroup scheduling make event logs of one seed differ, violations must reproduce",
